@@ -221,6 +221,15 @@ def c05_4(ctx):
                       "%s iterates its argument `%s` %d times without materialising it: a generator is exhausted by the first pass and the later table stays empty (inputs needing it are silently left unsigned)" % (name, p, len(sites)),
                       what="iter:%s:%s" % (name, p), sample={"function": name, "parameter": p, "iteration_sites": len(sites)})
         _refcheck(ctx, UTILS, name, "u_" + name, "lookup:%s" % name)
+    # the tables hold WHATEVER script a caller knows the pre-image of: redeem scripts (at most 520 bytes when spent) and witness
+    # scripts (up to 10000) go through the same functions, so a function that files a script away refuses none by its size
+    for rel_, nm_ in ((KEYCHAIN, "Keychain.add_p2s_script"), (KEYCHAIN, "Keychain.add_p2s_scripts"), (UTILS, "build_p2sh_lookup")):
+        g_ = ctx.func(rel_, nm_)
+        w_ = sym.walk(ctx, g_)
+        by_len = [e for e in w_.exits if e.kind == "raise" and e.cond not in (True, False) and any(isinstance(o, str) and "len(" in o for o in gi.f_opaques(e.cond))]
+        ctx.check(not by_len, "scripts-filed-whatever-their-size:%s" % nm_.split(".")[-1], ctx.where(g_, by_len[0].node) if by_len else ctx.where(g_),
+                  "%s refuses a script by its length (`%s`): witness scripts of up to 10000 bytes (a 16-key multisig has 547) are legitimate entries, and inputs that need them can then no longer be signed"
+                  % (nm_, [o for o in gi.f_opaques(by_len[0].cond) if isinstance(o, str) and "len(" in o][0][:60] if by_len else ""), sample={"function": nm_, "refusals_by_length": 0})
     _refcheck(ctx, KEYCHAIN, "Keychain.get", "kc_get", "keychain-lookup-order")
     _refcheck(ctx, KEYCHAIN, "Keychain._add_key_to_cache", "kc_add_key_to_cache", "keychain-both-forms")
 
